@@ -84,7 +84,9 @@ Example snow3g_uea2_junk_is_not_job_data :
   option_map (fun s => idleb s && forallb (fun ln => cleanb fam_snow3g_uea2 (l_fld ln)) s &&
                        match nth_error s 0, nth_error s 1 with
                        | Some l0, Some l1 =>
-                           forallb fval_is_zero (l_fld l0) && existsb fval_is_junk (l_fld l1)
+                           match nth_error (l_fld l0) 1, nth_error (l_fld l1) 1 with
+                           | Some Zero, Some Junk => true
+                           | _, _ => false end
                        | _, _ => false end)
              (run fam_snow3g_uea2 (reset_state fam_snow3g_uea2 4) [Submit 3 0 None; Flush 0 0])
   = Some true.
